@@ -23,6 +23,7 @@ import (
 	"strconv"
 	"strings"
 	"sync"
+	"sync/atomic"
 	"testing"
 	"testing/cryptotest"
 	"testing/synctest"
@@ -86,10 +87,10 @@ type e2Node struct {
 	trans *rafthttp.HTTPTransport
 	api   *api.HTTP
 	fss   raft.SnapshotStore
-	alive bool
-	inc   int
+	aliveA atomic.Bool
+	incA   atomic.Int64
 	stopExpire context.CancelFunc
-	slowMs int64
+	slowA  atomic.Int64
 }
 
 type e2FSM struct{ n *e2Node }
@@ -149,7 +150,7 @@ func (n *e2Node) start(bootstrap bool, servers []raft.Server) error {
 	if err := outputstream.DeleteOldDatabases(n.dir); err != nil {
 		return err
 	}
-	n.inc++
+	n.incA.Add(1)
 	n.irc = ircserver.NewIRCServer(e1Network, time.Now())
 	var err error
 	if n.out, err = outputstream.NewOutputStream(n.dir); err != nil {
@@ -202,7 +203,7 @@ func (n *e2Node) start(bootstrap bool, servers []raft.Server) error {
 	n.api.ReplaceState(n.irc, n.ircs, n.out)
 	n.mu.Unlock()
 	n.fsm.ReplaceState = n.api.ReplaceState
-	n.alive = true
+	n.aliveA.Store(true)
 	// the expiry loop of main()
 	ctx, cancel := context.WithCancel(context.Background())
 	n.stopExpire = cancel
@@ -218,6 +219,7 @@ func (n *e2Node) start(bootstrap bool, servers []raft.Server) error {
 			if rf.State() != raft.Leader {
 				continue
 			}
+			r.count("expiry_sweeps_on_leader", 1)
 			for _, msg := range nd.ircNow().ExpireSessions() {
 				ap.ApplyMessageWait(msg, 10*time.Second)
 				r.count("expired_by_sweep", 1)
@@ -229,10 +231,10 @@ func (n *e2Node) start(bootstrap bool, servers []raft.Server) error {
 
 // kill: the process dies. Nothing it says reaches anybody any more; memory is lost; the directory stays.
 func (n *e2Node) kill() {
-	if !n.alive {
+	if !n.aliveA.Load() {
 		return
 	}
-	n.alive = false
+	n.aliveA.Store(false)
 	n.stopExpire()
 	rf := n.raft
 	// shut down off the driver's path: in-flight handlers may still hold things
@@ -311,13 +313,18 @@ func (r *e2Run) reachable(src, dst int) bool {
 	if src < 0 {
 		return true // clients reach every node that is up
 	}
-	if len(r.sideA) == 0 {
+	side, _ := r.sideAv.Load().(map[int]bool)
+	if len(side) == 0 {
 		return true
 	}
-	return r.sideA[src] == r.sideA[dst]
+	return side[src] == side[dst]
 }
 
-func (r *e2Run) choice(stream string, n int) int { return r.src.Stream(stream).Intn(n) }
+func (r *e2Run) choice(stream string, n int) int {
+	r.choiceMu.Lock()
+	defer r.choiceMu.Unlock()
+	return r.src.Stream(stream).Intn(n)
+}
 
 // deliver runs one request against the target node's real handlers, with simulated latency and loss.
 func (r *e2Run) deliver(src int, req *http.Request, public bool) (*http.Response, error) {
@@ -327,11 +334,11 @@ func (r *e2Run) deliver(src int, req *http.Request, public bool) (*http.Response
 	}
 	link := fmt.Sprintf("net/%d>%d", src, dst.idx)
 	lat := time.Duration(1+r.choice(link+"/lat", 8)) * time.Millisecond
-	if dst.slowMs > 0 {
-		lat += time.Duration(dst.slowMs) * time.Millisecond
+	if dst.slowA.Load() > 0 {
+		lat += time.Duration(dst.slowA.Load()) * time.Millisecond
 	}
-	if src >= 0 && r.nodes[src].slowMs > 0 {
-		lat += time.Duration(r.nodes[src].slowMs) * time.Millisecond
+	if src >= 0 && r.nodes[src].slowA.Load() > 0 {
+		lat += time.Duration(r.nodes[src].slowA.Load()) * time.Millisecond
 	}
 	fail := func(why string) (*http.Response, error) {
 		r.count("wire_"+why, 1)
@@ -344,23 +351,23 @@ func (r *e2Run) deliver(src int, req *http.Request, public bool) (*http.Response
 		}
 		return nil, errors.New("simulated wire: " + why)
 	}
-	if src >= 0 && !r.nodes[src].alive {
+	if src >= 0 && !r.nodes[src].aliveA.Load() {
 		return fail("from_dead_node")
 	}
-	if !dst.alive {
+	if !dst.aliveA.Load() {
 		return fail("to_dead_node")
 	}
 	if !r.reachable(src, dst.idx) {
 		return fail("partitioned")
 	}
-	if r.lossPct > 0 && src >= 0 && r.choice(link+"/loss", 100) < r.lossPct {
+	if lp := int(r.lossA.Load()); lp > 0 && src >= 0 && r.choice(link+"/loss", 100) < lp {
 		return fail("lost")
 	}
 	time.Sleep(lat)
-	if !dst.alive {
+	if !dst.aliveA.Load() {
 		return fail("to_dead_node")
 	}
-	inc := dst.inc
+	inc := dst.incA.Load()
 	rec := httptest.NewRecorder()
 	if src >= 0 {
 		req.RemoteAddr = fmt.Sprintf("10.1.0.%d:4711", src+1)
@@ -374,10 +381,10 @@ func (r *e2Run) deliver(src int, req *http.Request, public bool) (*http.Response
 		h.DispatchPrivate(rec, req)
 	}
 	time.Sleep(lat)
-	if !dst.alive || dst.inc != inc {
+	if !dst.aliveA.Load() || dst.incA.Load() != inc {
 		return fail("reply_from_dead_node")
 	}
-	if src >= 0 && (!r.nodes[src].alive || !r.reachable(src, dst.idx)) {
+	if src >= 0 && (!r.nodes[src].aliveA.Load() || !r.reachable(src, dst.idx)) {
 		return fail("reply_cut")
 	}
 	return rec.Result(), nil
@@ -408,8 +415,8 @@ type e2Client struct {
 	got    []robust.Message
 	posts  []*e2Post
 	cmid   uint64
-	gone   bool
-	ready  bool
+	goneA  atomic.Bool
+	readyA atomic.Bool
 	cancel context.CancelFunc
 	mu     sync.Mutex
 }
@@ -422,9 +429,11 @@ type e2Run struct {
 	root    string
 	nodes   []*e2Node
 	clients []*e2Client
-	sideA   map[int]bool
-	lossPct int
+	sideAv  atomic.Value // map[int]bool or nil
+	lossA   atomic.Int64
 	statMu  sync.Mutex
+	choiceMu sync.Mutex
+	trMu     sync.Mutex
 	stop    context.CancelFunc
 	ctx     context.Context
 	prop    string
@@ -536,7 +545,7 @@ func (c *e2Client) post(ctx context.Context, line string, p *e2Post) bool {
 			c.node = node
 			return true
 		case err == nil && code == 404:
-			c.gone = true
+			c.goneA.Store(true)
 			r.count("client_session_gone", 1)
 			r.liveSessionGone(c, node, "POST message", string(rb))
 			return false
@@ -586,9 +595,9 @@ func (w *e2StreamWriter) Write(p []byte) (int, error) {
 func (c *e2Client) reader(ctx context.Context) {
 	r := c.run
 	node := c.node
-	for ctx.Err() == nil && !c.gone {
+	for ctx.Err() == nil && !c.goneA.Load() {
 		n := r.nodes[node%len(r.nodes)]
-		if !n.alive {
+		if !n.aliveA.Load() {
 			node++
 			if !c.sleep(ctx, 300*time.Millisecond) {
 				return
@@ -610,11 +619,11 @@ func (c *e2Client) reader(ctx context.Context) {
 			c.mu.Unlock()
 			r.count("messages_streamed", 1)
 		}}
-		inc := n.inc
+		inc := n.incA.Load()
 		// a watchdog cuts the connection when the node dies (the TCP connection would break)
 		go func() {
 			for cctx.Err() == nil {
-				if !n.alive || n.inc != inc {
+				if !n.aliveA.Load() || n.incA.Load() != inc {
 					cancel()
 					return
 				}
@@ -628,7 +637,7 @@ func (c *e2Client) reader(ctx context.Context) {
 		n.api.DispatchPublic(w, req)
 		cancel()
 		if w.code == 404 {
-			c.gone = true
+			c.goneA.Store(true)
 			r.count("client_session_gone", 1)
 			r.liveSessionGone(c, n.idx, "GET messages", string(w.buf))
 			return
@@ -661,11 +670,11 @@ func (c *e2Client) life(ctx context.Context, wg *sync.WaitGroup, barrier *sync.W
 	if !c.post(ctx, "NICK "+c.nick, nil) || !c.post(ctx, "USER u"+strconv.Itoa(c.idx)+" 0 * :Client", nil) || !c.post(ctx, "JOIN #sim", nil) {
 		return
 	}
-	c.ready = true
+	c.readyA.Store(true)
 	joined = true
 	barrier.Done()
 	barrier.Wait() // everybody is on the channel before tokens flow
-	for k := 0; k < r.sc.Msgs && ctx.Err() == nil && !c.gone; k++ {
+	for k := 0; k < r.sc.Msgs && ctx.Err() == nil && !c.goneA.Load(); k++ {
 		p := &e2Post{client: c.idx, seq: k, token: fmt.Sprintf("tok-%d-%d", c.idx, k)}
 		c.mu.Lock()
 		c.posts = append(c.posts, p)
@@ -717,7 +726,7 @@ func (c *e2Client) retryLast(ctx context.Context, line string) {
 		// wait until that node has applied the original
 		applied := false
 		for w := 0; w < 100 && ctx.Err() == nil; w++ {
-			if n.alive && n.ircNow().LastPostMessage(robust.Id{Id: c.sid}) == id {
+			if n.aliveA.Load() && n.ircNow().LastPostMessage(robust.Id{Id: c.sid}) == id {
 				applied = true
 				break
 			}
@@ -758,7 +767,7 @@ func (r *e2Run) attacker(ctx context.Context) {
 		}
 		var victims []*e2Client
 		for _, c := range r.clients {
-			if c.session != "" && !c.gone {
+			if c.session != "" && !c.goneA.Load() {
 				victims = append(victims, c)
 			}
 		}
@@ -983,7 +992,7 @@ func (r *e2Run) lagProber(ctx context.Context) {
 		}
 		r.count("lagprobe_sessions", 1)
 		for _, n := range r.nodes {
-			if !n.alive {
+			if !n.aliveA.Load() {
 				continue
 			}
 			n := n
@@ -1009,6 +1018,96 @@ func (r *e2Run) lagProber(ctx context.Context) {
 				r.violate("C17", "live-session-reported-gone", "http-404-for-live-session", "node %d (%s) answered 404 to POST message for session %s created a moment ago: %s", n.idx, n.raft.State(), rep.Sessionid, trunc(string(prb), 100))
 			}
 		}
+	}
+}
+
+// stress (C20): groups of operations started in the same instant, so that they are unordered by
+// happens-before; the race detector is the oracle. Groups are separated by virtual sleeps only.
+func (r *e2Run) stress(ctx context.Context) {
+	g := 0
+	for ctx.Err() == nil {
+		t := time.NewTimer(time.Duration(100+r.choice("stress/wait", 900)) * time.Millisecond)
+		select {
+		case <-ctx.Done():
+			t.Stop()
+			return
+		case <-t.C:
+		}
+		var live []*e2Client
+		for _, c := range r.clients {
+			if c.session != "" && !c.goneA.Load() {
+				live = append(live, c)
+			}
+		}
+		if len(live) == 0 {
+			continue
+		}
+		g++
+		v := live[r.choice("stress/victim", len(live))]
+		node := r.choice("stress/node", len(r.nodes))
+		var wg sync.WaitGroup
+		launch := func(f func()) {
+			wg.Add(1)
+			go func() { defer wg.Done(); f() }()
+		}
+		post := func(k int) func() {
+			return func() {
+				body, _ := json.Marshal(map[string]interface{}{"Data": fmt.Sprintf("PRIVMSG #sim :stress-%d-%d", g, k), "ClientMessageId": uint64(5000000 + g*10 + k)})
+				rctx, cancel := context.WithTimeout(ctx, 15*time.Second)
+				defer cancel()
+				r.request(rctx, node, "POST", "/robustirc/v1/"+v.session+"/message", map[string]string{"X-Session-Auth": v.auth}, string(body))
+			}
+		}
+		get := func(path string) func() {
+			return func() {
+				rctx, cancel := context.WithTimeout(ctx, 15*time.Second)
+				defer cancel()
+				h := basic()
+				h["Accept"] = []string{"text/html", "application/json"}[r.choice("stress/accept", 2)]
+				r.request(rctx, node, "GET", path, h, "")
+			}
+		}
+		read := func() {
+			rctx, cancel := context.WithTimeout(ctx, 700*time.Millisecond)
+			defer cancel()
+			req, _ := http.NewRequestWithContext(rctx, "GET", "https://"+r.nodes[node].addr+"/robustirc/v1/"+v.session+"/messages?lastseen=0.0", nil)
+			req.Header.Set("X-Session-Auth", v.auth)
+			w := &e2StreamWriter{hdr: http.Header{}, on: func(m *robust.Message) {}}
+			if r.nodes[node].aliveA.Load() {
+				r.nodes[node].api.DispatchPublic(w, req)
+			}
+		}
+		n := 2 + r.choice("stress/size", 4)
+		for k := 0; k < n; k++ {
+			switch r.choice("stress/op", 12) {
+			case 0, 1, 2:
+				launch(post(k))
+			case 3:
+				launch(read)
+			case 4:
+				launch(get("/status"))
+			case 5:
+				launch(get("/status/sessions"))
+			case 6:
+				launch(get("/status/state"))
+			case 7:
+				launch(get("/config"))
+			case 8:
+				launch(get("/status/getmessage"))
+			case 9:
+				launch(get("/status/irclog"))
+			case 10:
+				launch(get("/snapshot"))
+			default:
+				launch(get("/irclog?sessionid=" + v.session))
+			}
+		}
+		// always at least two posts for the same session in the same instant
+		launch(post(8))
+		launch(post(9))
+		r.count("stress_groups", 1)
+		r.count("stress_ops", int64(n+2))
+		wg.Wait()
 	}
 }
 
@@ -1100,7 +1199,7 @@ func (r *e2Run) servers() []raft.Server {
 
 func (r *e2Run) leader() *e2Node {
 	for _, n := range r.nodes {
-		if n.alive && n.raft.State() == raft.Leader {
+		if n.aliveA.Load() && n.raft.State() == raft.Leader {
 			return n
 		}
 	}
@@ -1111,7 +1210,7 @@ func (r *e2Run) doStep(st e2Step) {
 	switch st.K {
 	case "kill":
 		n := r.nodes[st.N%len(r.nodes)]
-		if n.alive {
+		if n.aliveA.Load() {
 			r.tr.Log("kill n%d", n.idx)
 			n.kill()
 			r.count("kills", 1)
@@ -1131,7 +1230,7 @@ func (r *e2Run) doStep(st e2Step) {
 		r.tr.Log("killall")
 	case "restart", "restartall":
 		for _, n := range r.nodes {
-			if (st.K == "restartall" || n.idx == st.N%len(r.nodes)) && !n.alive {
+			if (st.K == "restartall" || n.idx == st.N%len(r.nodes)) && !n.aliveA.Load() {
 				if err := n.start(false, nil); err != nil {
 					r.res.Inconclusive = "harness: restart: " + err.Error()
 					return
@@ -1141,28 +1240,29 @@ func (r *e2Run) doStep(st e2Step) {
 			}
 		}
 	case "partition":
-		r.sideA = map[int]bool{}
+		side := map[int]bool{}
 		for _, a := range st.A {
-			r.sideA[a%len(r.nodes)] = true
+			side[a%len(r.nodes)] = true
 		}
+		r.sideAv.Store(side)
 		r.count("partitions", 1)
 		r.tr.Log("partition %v", st.A)
 	case "heal":
-		r.sideA = nil
+		r.sideAv.Store(map[int]bool{})
 		r.tr.Log("heal")
 	case "loss":
-		r.lossPct = st.P
+		r.lossA.Store(int64(st.P))
 		if st.P > 0 {
 			r.count("loss_windows", 1)
 		}
 	case "slow":
-		r.nodes[st.N%len(r.nodes)].slowMs = st.Ms
+		r.nodes[st.N%len(r.nodes)].slowA.Store(st.Ms)
 		if st.Ms > 0 {
 			r.count("slow_nodes", 1)
 		}
 	case "snapshot":
 		n := r.nodes[st.N%len(r.nodes)]
-		if n.alive {
+		if n.aliveA.Load() {
 			go func() {
 				ctx, cancel := context.WithTimeout(r.ctx, 20*time.Second)
 				defer cancel()
@@ -1261,6 +1361,8 @@ func e2Execute(t *testing.T, sc *e2Scenario, prop string, res *core.Result) erro
 		runActor(r.admin)
 	case "C17":
 		runActor(r.lagProber)
+	case "C20":
+		runActor(r.stress)
 	}
 	// workload phase with faults
 	start := time.Now()
@@ -1277,10 +1379,11 @@ func e2Execute(t *testing.T, sc *e2Scenario, prop string, res *core.Result) erro
 	actors.Wait()
 	// faults stop: heal, restart what is down
 	r.stepIdx = len(sc.Steps)
-	r.sideA, r.lossPct = nil, 0
+	r.sideAv.Store(map[int]bool{})
+	r.lossA.Store(0)
 	for _, n := range r.nodes {
-		n.slowMs = 0
-		if !n.alive {
+		n.slowA.Store(0)
+		if !n.aliveA.Load() {
 			if err := n.start(false, nil); err != nil {
 				shutdown()
 				return err
@@ -1315,6 +1418,8 @@ func e2Execute(t *testing.T, sc *e2Scenario, prop string, res *core.Result) erro
 		res.Nontrivial = res.Stats["configs_accepted"] >= 1 && res.Stats["configs_compared"] >= 1
 	case "C17":
 		res.Nontrivial = res.Stats["getmessages_connections"] >= 2 && len(r.nodes) > 1
+	case "C20":
+		res.Nontrivial = res.Stats["stress_groups"] >= 3
 	default:
 		res.Nontrivial = res.Stats["posts_acked"] >= 3 && (res.Stats["kills"]+res.Stats["kill_all"]+res.Stats["partitions"] >= 1) && res.Stats["post_failures"]+res.Stats["posts_acked_after_retry"] >= 1
 	}
@@ -1329,12 +1434,15 @@ func (r *e2Run) readAll(n *e2Node, c *e2Client) ([]robust.Message, int) {
 	ctx, cancel := context.WithCancel(r.ctx)
 	req, _ := http.NewRequestWithContext(ctx, "GET", "https://"+n.addr+"/robustirc/v1/"+c.session+"/messages?lastseen=0.0", nil)
 	req.Header.Set("X-Session-Auth", c.auth)
+	var mu sync.Mutex
 	last := time.Now()
 	w := &e2StreamWriter{hdr: http.Header{}, on: func(m *robust.Message) {
+		mu.Lock()
 		if m.Type != robust.Ping {
 			got = append(got, *m)
 		}
 		last = time.Now()
+		mu.Unlock()
 	}}
 	done := make(chan struct{})
 	go func() { n.api.DispatchPublic(w, req); close(done) }()
@@ -1345,7 +1453,10 @@ func (r *e2Run) readAll(n *e2Node, c *e2Client) ([]robust.Message, int) {
 			k = 1 << 20
 		default:
 		}
-		if time.Since(last) > 1500*time.Millisecond {
+		mu.Lock()
+		idle := time.Since(last)
+		mu.Unlock()
+		if idle > 1500*time.Millisecond {
 			break
 		}
 	}
@@ -1354,7 +1465,9 @@ func (r *e2Run) readAll(n *e2Node, c *e2Client) ([]robust.Message, int) {
 	case <-done:
 	case <-time.After(5 * time.Second):
 	}
-	return got, w.code
+	mu.Lock()
+	defer mu.Unlock()
+	return append([]robust.Message(nil), got...), w.code
 }
 
 func streamString(ms []robust.Message) string {
@@ -1404,7 +1517,7 @@ func (r *e2Run) finalChecks(lastFault time.Time) {
 	r.count("converged_ms_after_last_fault", time.Since(lastFault).Milliseconds())
 	// per session: identical stream on every node; acknowledged tokens exactly once, in posting order
 	for _, c := range r.clients {
-		if c.session == "" || c.gone {
+		if c.session == "" || c.goneA.Load() {
 			continue
 		}
 		var ref string
@@ -1429,7 +1542,7 @@ func (r *e2Run) finalChecks(lastFault time.Time) {
 		}
 		// tokens of the other clients
 		for _, o := range r.clients {
-			if o == c || !o.ready || !c.ready {
+			if o == c || !o.readyA.Load() || !c.readyA.Load() {
 				continue
 			}
 			lastPos := -1
